@@ -39,9 +39,16 @@ type DynObs struct {
 	Queued  int      `json:"queued"`  // tasks in the work queue after the events
 	Synced  int      `json:"synced"`  // tasks the drain ran
 	After   []string `json:"after"`   // server lines after the drain
-	HasFile bool     `json:"has_file"` // the configuration file of the resource exists
+	HasFile bool     `json:"has_file"` // the upstream block of every backend exists
+	Per     []PerObs `json:"per"`      // per backend (one resource each): the server lines of ITS upstream block
 	Panic   string   `json:"panic,omitempty"`
 	Error   string   `json:"error,omitempty"`
+}
+
+type PerObs struct {
+	Before  []string `json:"before"`
+	After   []string `json:"after"`
+	HasFile bool     `json:"has_file"`
 }
 
 // recMgr is the fake NGINX manager of the repository, remembering the files it is given.
@@ -152,41 +159,45 @@ type obj struct {
 }
 
 // resourceFor builds the resource(s) that carry the backend.
-func resourceFor(b Backend) []obj {
+// resourceFor builds the resource(s) that carry backend number i of the case (one resource per
+// backend, each with its own name and host) and returns the name of its upstream block.
+func resourceFor(b Backend, i int) ([]obj, string) {
 	sub := labelsOf(b.Subsel)
+	host := fmt.Sprintf("h%d.example.com", i)
 	switch b.Kind {
 	case "ing":
 		backend := networking.IngressBackend{Service: &networking.IngressServiceBackend{
 			Name: b.Svc, Port: networking.ServiceBackendPort{Name: b.PortName, Number: int32(b.PortNum)}}}
 		class := "nginx"
-		ing := &networking.Ingress{ObjectMeta: meta_v1.ObjectMeta{Namespace: NS, Name: "ing", Annotations: map[string]string{}},
+		ing := &networking.Ingress{ObjectMeta: meta_v1.ObjectMeta{Namespace: NS, Name: fmt.Sprintf("ing%d", i), Annotations: map[string]string{}},
 			Spec: networking.IngressSpec{IngressClassName: &class}}
 		if b.ClusterIP {
 			ing.Annotations["nginx.org/use-cluster-ip"] = "true"
 		}
 		pt := networking.PathTypePrefix
-		ing.Spec.Rules = []networking.IngressRule{{Host: "h.example.com", IngressRuleValue: networking.IngressRuleValue{
+		ing.Spec.Rules = []networking.IngressRule{{Host: host, IngressRuleValue: networking.IngressRuleValue{
 			HTTP: &networking.HTTPIngressRuleValue{Paths: []networking.HTTPIngressPath{{Path: "/", PathType: &pt, Backend: backend}}}}}}
-		return []obj{{"ingress", ing}}
+		return []obj{{"ingress", ing}}, configs.VerifC14IngressUpstreamName(ing, host, &backend)
 	case "vs", "vsr":
 		u := conf_v1.Upstream{Name: "u", Service: b.Svc, Port: uint16(b.PortNum), UseClusterIP: b.ClusterIP, Subselector: sub}
-		vs := &conf_v1.VirtualServer{ObjectMeta: meta_v1.ObjectMeta{Namespace: NS, Name: "vs"}, Spec: conf_v1.VirtualServerSpec{Host: "h.example.com"}}
+		vs := &conf_v1.VirtualServer{ObjectMeta: meta_v1.ObjectMeta{Namespace: NS, Name: fmt.Sprintf("vs%d", i)}, Spec: conf_v1.VirtualServerSpec{Host: host}}
 		if b.Kind == "vs" {
 			vs.Spec.Upstreams = []conf_v1.Upstream{u}
 			vs.Spec.Routes = []conf_v1.Route{{Path: "/", Action: &conf_v1.Action{Pass: "u"}}}
-			return []obj{{"virtualserver", vs}}
+			return []obj{{"virtualserver", vs}}, configs.NewUpstreamNamerForVirtualServer(vs).GetNameForUpstream("u")
 		}
-		vs.Spec.Routes = []conf_v1.Route{{Path: "/r", Route: NS + "/vsr"}}
-		vsr := &conf_v1.VirtualServerRoute{ObjectMeta: meta_v1.ObjectMeta{Namespace: NS, Name: "vsr"},
-			Spec: conf_v1.VirtualServerRouteSpec{Host: "h.example.com", Upstreams: []conf_v1.Upstream{u},
+		rname := fmt.Sprintf("vsr%d", i)
+		vs.Spec.Routes = []conf_v1.Route{{Path: "/r", Route: NS + "/" + rname}}
+		vsr := &conf_v1.VirtualServerRoute{ObjectMeta: meta_v1.ObjectMeta{Namespace: NS, Name: rname},
+			Spec: conf_v1.VirtualServerRouteSpec{Host: host, Upstreams: []conf_v1.Upstream{u},
 				Subroutes: []conf_v1.Route{{Path: "/r", Action: &conf_v1.Action{Pass: "u"}}}}}
-		return []obj{{"virtualserverroute", vsr}, {"virtualserver", vs}}
+		return []obj{{"virtualserverroute", vsr}, {"virtualserver", vs}}, configs.NewUpstreamNamerForVirtualServerRoute(vs, vsr).GetNameForUpstream("u")
 	case "ts":
-		ts := &conf_v1.TransportServer{ObjectMeta: meta_v1.ObjectMeta{Namespace: NS, Name: "ts"}, Spec: conf_v1.TransportServerSpec{
+		ts := &conf_v1.TransportServer{ObjectMeta: meta_v1.ObjectMeta{Namespace: NS, Name: fmt.Sprintf("ts%d", i)}, Spec: conf_v1.TransportServerSpec{
 			Listener:  conf_v1.TransportServerListener{Name: "tcp-5353", Protocol: "TCP"},
 			Upstreams: []conf_v1.TransportServerUpstream{{Name: "u", Service: b.Svc, Port: b.PortNum}},
 			Action:    &conf_v1.TransportServerAction{Pass: "u"}}}
-		return []obj{{"transportserver", ts}}
+		return []obj{{"transportserver", ts}}, configs.VerifC14TransportServerUpstreamName(ts, "u")
 	}
 	panic("unknown backend kind " + b.Kind)
 }
@@ -199,11 +210,10 @@ func runDyn(c *Case) {
 		}
 		c.Obs = o
 	}()
-	if c.Dyn == nil || len(c.Backends) != 1 {
-		o.Error = "a dyn case needs a change and exactly one backend"
+	if c.Dyn == nil || len(c.Backends) == 0 {
+		o.Error = "a dyn case needs a change and at least one backend"
 		return
 	}
-	b := c.Backends[0]
 	m := newRecMgr()
 	cnf, err := configs.VerifC14NewConfigurator(repoDir(), m, c.Plus)
 	if err != nil {
@@ -230,15 +240,26 @@ func runDyn(c *Case) {
 	for _, p := range c.Pods {
 		must(v.Put("pod", mkPod(p)))
 	}
-	for _, r := range resourceFor(b) {
-		must(v.Event(r.kind, "add", nil, r.o))
+	// one resource per backend (an Ingress, a VirtualServer, a VirtualServerRoute with its
+	// VirtualServer, a TransportServer); several of them may share one Service
+	ups := make([]string, len(c.Backends))
+	for i, b := range c.Backends {
+		objs, name := resourceFor(b, i)
+		ups[i] = name
+		for _, r := range objs {
+			must(v.Event(r.kind, "add", nil, r.o))
+		}
 	}
 	if _, err := v.Drain(100); err != nil {
 		o.Error = err.Error()
 		return
 	}
-	stream := b.Kind == "ts"
-	o.Before, _ = m.servers(stream)
+	o.Per = make([]PerObs, len(c.Backends))
+	files := m.upstreamServers()
+	for i := range c.Backends {
+		o.Per[i].Before = sorted(files[ups[i]])
+		o.Before = append(o.Before, o.Per[i].Before...)
+	}
 
 	// the change, delivered as watch events: services first, then slices (as the EndpointSlice
 	// controller reacts to the Service)
@@ -293,7 +314,14 @@ func runDyn(c *Case) {
 		o.Error = err.Error()
 		return
 	}
-	o.After, o.HasFile = m.servers(stream)
+	files = m.upstreamServers()
+	o.HasFile = true
+	for i := range c.Backends {
+		s, ok := files[ups[i]]
+		o.Per[i].After, o.Per[i].HasFile = sorted(s), ok
+		o.After = append(o.After, o.Per[i].After...)
+		o.HasFile = o.HasFile && ok
+	}
 }
 
 // ---------- generator ----------
@@ -333,6 +361,26 @@ func genDyn(r *vh.Rng, id int) Case {
 		b.Subsel = [][2]string{{"version", vh.Pick(r, []string{"v1", "v2"})}}
 	}
 	c.Backends = []Backend{b}
+	// the same Service behind resources of two or three different kinds
+	if r.Chance(1, 2) {
+		kinds := []string{"ing", "vs", "vsr", "ts"}
+		for k := 1 + r.Intn(2); k > 0; k-- {
+			kind := kinds[r.Intn(len(kinds))]
+			dup := false
+			for _, x := range c.Backends {
+				dup = dup || x.Kind == kind
+			}
+			if dup {
+				continue
+			}
+			c.Backends = append(c.Backends, Backend{Kind: kind, Svc: s.Name, PortNum: sp.Port})
+		}
+		// any order of the kinds
+		for k := len(c.Backends) - 1; k > 0; k-- {
+			j := r.Intn(k + 1)
+			c.Backends[k], c.Backends[j] = c.Backends[j], c.Backends[k]
+		}
+	}
 
 	d := &DynSpec{Op: vh.Pick(r, dynOps), Svcs2: deepCopy(c.Svcs), Slices2: deepCopy(c.Slices)}
 	var mine []int // slices of the service
@@ -442,6 +490,19 @@ func dynCorpus() []Case {
 		cs = append(cs, Case{Fam: "dyn", Class: "dyn-corpus-targetport", Svcs: []Svc{svc(8080)}, Slices: []Slice{sl(8080)},
 			Backends: []Backend{{Kind: k, Svc: "web", PortNum: 80}},
 			Dyn:      &DynSpec{Op: "targetport", Svcs2: []Svc{svc(9090)}, Slices2: []Slice{sl(9090)}}})
+	}
+	// one Service behind resources of several kinds, then its endpoints change
+	sl2 := Slice{Ns: NS, Name: "web-s0", Svc: "web", Ports: []SlicePort{{Name: "http", HasNum: true, Num: 8080, Proto: tcp}},
+		Eps: []Endp{{Addrs: []string{"10.0.0.1"}, Ready: 0, Ref: "web-0"}, {Addrs: []string{"10.0.0.2"}, Ready: 1, Ref: "web-1"}}}
+	for _, kinds := range [][]string{{"ing", "vs"}, {"ing", "ts"}, {"vs", "ts"}, {"vsr", "ing"}, {"ts", "vs", "ing"}} {
+		for _, plus := range []bool{false, true} {
+			var bs []Backend
+			for _, k := range kinds {
+				bs = append(bs, Backend{Kind: k, Svc: "web", PortNum: 80})
+			}
+			cs = append(cs, Case{Fam: "dyn", Class: "dyn-corpus-shared-service", Plus: plus, Svcs: []Svc{svc(8080)}, Slices: []Slice{sl(8080)},
+				Backends: bs, Dyn: &DynSpec{Op: "ready", Svcs2: []Svc{svc(8080)}, Slices2: []Slice{sl2}}})
+		}
 	}
 	return cs
 }
